@@ -372,7 +372,8 @@ class Surrogates(Cached):
             low=0, high=2 * np.pi, size=(self.N, len_phase))
 
         #  Add random phases uniformly distributed in the interval [0, 2*Pi]
-        surrogates *= np.exp(1j * phases)
+        #  NOTE: not in place, `original_data_fft()` is cached
+        surrogates = surrogates * np.exp(1j * phases)
 
         #  Calculate IFFT and take the real part, the remaining imaginary part
         #  is due to numerical errors.
